@@ -5,6 +5,9 @@ CONSTANTS
   MaxRuns = 3
   Variant = "fixed"
   Kinds <- AllKinds
+  Forms <- AllForms
+  SubRuns <- Yes
+  Founds <- AllFounds
 INVARIANT TypeOK
 INVARIANT Recoverable
 PROPERTY DeleteGuard
